@@ -324,6 +324,10 @@ func Workers() int {
 	return runtime.NumCPU()
 }
 
+// PanicHook, if set, is offered every panic recovered in a worker: returning true means it has been
+// accounted for (e.g. reported as a violation because it originated in the code under test).
+var PanicHook func(val any, stack string) bool
+
 // Parallel runs fn(worker, item) for item in [0,n) on Workers() goroutines.
 // A panic inside fn is re-raised as an instrument error after all workers
 // stopped (checks that want to treat engine panics as violations must
@@ -344,11 +348,15 @@ func Parallel(n int, fn func(worker, item int)) {
 			defer wg.Done()
 			defer func() {
 				if e := recover(); e != nil {
+					st := make([]byte, 1<<14)
+					st = st[:runtime.Stack(st, false)]
+					if PanicHook != nil && PanicHook(e, string(st)) {
+						return
+					}
 					pmu.Lock()
 					if pval == nil {
 						pval = e
-						pstack = make([]byte, 1<<14)
-						pstack = pstack[:runtime.Stack(pstack, false)]
+						pstack = st
 					}
 					pmu.Unlock()
 				}
